@@ -95,6 +95,44 @@ CLAIMED["C05"] = {
     "design": "DESIGN.md section 4 C05",
 }
 
+CLAIMED["C06"] = {
+    "text": "Rocq theorems about the column functions of the 7 fuzzy operators (any number of inputs): Or/And are fz of THE maximum/"
+            "minimum (characterised, not restated), Not is fz of the negation, Union the mean, WeightedUnion the weighted mean "
+            "(missing on zero weight sum), SelectedUnion the mean of the last/first k of the ascending sorted rearrangement "
+            "(proved a sorted permutation), XOr the EEMS formula on the two truest; consequences proved for all inputs: "
+            "reordering the inputs leaves outcome, type, shape and every cell unchanged at the level of whole runs "
+            "(C06_order_invariance; insertion sort proved order-independent up to ==), Not involution, De Morgan, "
+            "And <= Union <= Or, k=1 gives Or/And, k=all gives Union. Tied by EXHAUSTIVE lattice runs for <= 3 inputs plus random ones.",
+    "note": CELLS_NOTE, "technique": "Rocq proof (algebra of the column functions, lifted to runs) + exhaustive-lattice differential correspondence",
+    "design": "DESIGN.md section 4 C06",
+}
+CLAIMED["C07"] = {
+    "text": "Rocq theorems about the 10 arithmetic command models: column functions are the arithmetic definitions (sum, product, "
+            "difference, quotient, THE min/max, mean, weighted sum/mean); result element type is integer exactly when all inputs "
+            "(and weights) are; commutative commands give the same outcome - success or failure alike - type, shape and cells for "
+            "every ordering of the inputs (C07_order_invariance, all input counts); division by zero is a missing cell exactly at "
+            "zero divisors and the checks never look at values; the checks are exactly: weight count first, empty list, mismatched "
+            "shapes (validate_shapes characterised as non-empty and all shapes equal). Tied by differential runs over mixes of "
+            "int8/16/32/64 and float32/64 inputs, both orders, zero divisors, error cases.",
+    "note": CELLS_NOTE + " Integer wrap-around inside a narrow element type (e.g. int8 data times an integer weight) is numpy's "
+            "semantics, not modelled, and excluded from generation.",
+    "technique": "Rocq proof + differential correspondence over dtype mixes, orders and error cases",
+    "design": "DESIGN.md section 4 C07",
+}
+CLAIMED["C08"] = {
+    "text": "Rocq theorems about the 14 conversion/normalisation models: CvtToFuzzy is the clamped affine map sending the true "
+            "threshold to +1 and the false one to -1 (endpoints and affinity proved), thresholds default to data min/max by "
+            "direction, CvtFromFuzzy inverts it between the thresholds, it is monotone; every CvtToFuzzy variant equals its "
+            "Normalize counterpart followed by the clamp, with identical checks; CvtToBinary is the threshold test; category "
+            "lookup returns the listed value on a hit and the default otherwise; curves use the given control points sorted by raw "
+            "value (proved a sorted permutation) and are flat outside and the straight line between neighbours; z-score and "
+            "mean-to-mid variants are the same curve over control points derived from the (permutation-invariant) statistics. "
+            "Tied by differential runs incl. thresholds equal to 0, unsorted points, cells on control points and on the mean.",
+    "note": CELLS_NOTE + " sqrt (numpy.ma.std) is the oracle sigma, validated per case against the exact variance.",
+    "technique": "Rocq proof (mapping laws) + differential correspondence against the code and an exact reference",
+    "design": "DESIGN.md section 4 C08",
+}
+
 NOT_YET = "check not built yet (planned with the same technique, see DESIGN.md section 4); not claimed in this commit"
 
 
